@@ -444,7 +444,7 @@ _mk_lru(5, ("thorough",), 1500)
 
 
 # --- e2. results do not depend on what was measured before (P, real caches in place) -----------------------------------
-_HIST = ["", "a", "ab ", "a中b", "中中中", "á", "Supercalifragilistic", "a b"]
+_HIST = ["", "a", "ab ", "a中b", "中中中", "a\u0301", "Supercalifragilistic", "a b"]
 
 
 @symx("C13-e-history-independence", timeout=900, kind="P",
